@@ -173,10 +173,12 @@ Section CL.
       c_open (w_c w') = false /\ c_at (w_c w') = c_psize (w_c w') /\ c_psize (w_c w') = c_psize (w_c w) /\
       c_disc (w_c w') = c_disc (w_c w) /\ c_seq (w_c w') = seqn d (S (List.length K)) /\
       c_in_ts (w_c w') = c_in_ts (w_c w) /\ c_enabled (w_c w') = c_enabled (w_c w) /\ len_ok w' /\
-      w_or w' = w_or w /\ w_pcargs w' = w_pcargs w /\ obs (w_log w') = obs (w_log w) /\ w_err w = false.
+      w_or w' = w_or w /\ w_pcargs w' = w_pcargs w /\
+      obs (w_log w') = obs (w_log w) ++ (if has_tse d then [ETs 1 ts] else []) /\ w_err w = false /\
+      ts_ok d w K [k_tsb k].
   Proof.
     intros (H1 & H2 & (n & H3) & H4 & H5 & H6 & H7 & H8 & H9 & H10 & H11) Hop Hat He. cbv zeta.
-    rewrite Hop in H11. destruct H11 as (tsb & hs & HC & CH).
+    rewrite Hop in H11. destruct H11 as (tsb & hs & HC & CH & TS).
     set (k := mk_pk (c_psize (w_c w)) (c_seq (w_c w)) tsb ts (c_at (w_c w)) (c_disc (w_c w)) cur).
     exists k.
     unfold close_do in *.
@@ -185,9 +187,10 @@ Section CL.
                  c_off_content (w_c w1) = c_off_content (w_c w) /\ c_disc (w_c w1) = c_disc (w_c w) /\
                  c_seq (w_c w1) = c_seq (w_c w) /\ c_open (w_c w1) = c_open (w_c w) /\ c_saved (w_c w1) = c_saved (w_c w) /\
                  c_enabled (w_c w1) = c_enabled (w_c w) /\ w_or w1 = w_or w /\ w_pcargs w1 = w_pcargs w /\
-                 obs (w_log w1) = obs (w_log w) /\ w_err w1 = w_err w).
-    { rewrite W1. unfold close_mark, close_begin. destruct (_ && _); up; repeat split; auto.
-      rewrite obs_app. cbn. rewrite app_nil_r. reflexivity. }
+                 obs (w_log w1) = obs (w_log w) ++ (if has_tse d then [ETs 1 ts] else []) /\ w_err w1 = w_err w).
+    { rewrite W1. unfold close_mark, close_begin, has_tse. destruct (_ && _); up; repeat split; auto.
+      - rewrite obs_app. cbn. reflexivity.
+      - rewrite app_nil_r. reflexivity. }
     destruct C1 as (C1s & C1p & C1c & C1o & C1d & C1q & C1n & C1v & C1e & C1r & C1g & C1l & C1x).
     assert (L1 : len_ok w1) by (unfold len_ok; rewrite C1s, C1p; exact H1).
     unfold close_ws, close_fin in He. rewrite err_set_c in He.
@@ -228,7 +231,8 @@ Section CL.
     split; [reflexivity|]. split; [reflexivity|]. split; [reflexivity|]. split; [reflexivity|].
     split; [reflexivity|]. split; [reflexivity|].
     split.
-    2:{ repeat split; auto; try congruence.
+    2:{ destruct TS as [TS1 TS2].
+        repeat split; auto; try congruence.
         - rewrite A4q, A3q, A2q, C1q, H10. apply seqn_S.
         - rewrite <- C1x. destruct (w_err w1) eqn:X; [|reflexivity].
           rewrite (sticky_write_saved d _ _ w1 X) in E2. discriminate. }
